@@ -120,6 +120,15 @@ of `t` that read `k` directly or transitively (`Reach`, the inductively defined 
 theorem depClosure_iff_reach (t : Table κ ω α) (k x : κ) : x ∈ depClosure t k ↔ Reach t k x :=
   mem_depClosure t k x
 
+/-- **Nothing is left dangling**: if every derived component of the dataset had all of its inputs
+in the dataset before `remove_component`, every derived component that remains afterwards still has
+all of its inputs. -/
+theorem remove_keeps_inputs (fuel : Nat) (t : Table κ ω α) (k : κ) (hf : t.length ≤ fuel)
+    (hc : ∀ d c fs x, (d, c) ∈ t → c.fromIds = some fs → x ∈ fs → x ∈ t.keys) :
+    ∀ d c fs x, (d, c) ∈ removeComp fuel t k → c.fromIds = some fs → x ∈ fs →
+      x ∈ (removeComp fuel t k).keys :=
+  removeComp_closed fuel t k hf hc
+
 /-- Removing an identifier that is not in the dataset changes nothing. -/
 theorem remove_absent (fuel : Nat) (t : Table κ ω α) (k : κ) (hk : k ∉ t.keys) :
     removeComp fuel t k = t :=
